@@ -82,7 +82,10 @@ class Scen:
     def table(self):
         out = [{"alg": self.alg, "ch": [], "hex": digest(self.alg, [])}]
         k = len(self.parts)
+        big = any(p[1][2] for p in self.parts)
         for i in range(k):
+            if big and i not in getattr(self, "starts", {0}):
+                continue          # scenarios with 4 GiB chunks: only the runs that can be asked for (from creation or from a reset on)
             for j in range(i + 1, k + 1):
                 sub = self.parts[i:j]
                 if any(p[1][2] for p in sub) and not (i == 0 or True):
@@ -158,6 +161,7 @@ def run(ctx):
     if not have_gost:
         ctx.notes.append("no GOST R 34.11-94 reference available: GOST digests not checked in this run")
     exe = build.driver("drv_hash", ["drv_hash.c"], variant="asan")
+    exe_plain = build.driver("drv_hash", ["drv_hash.c"], variant="default", opt="-O2")
     cid = [0]
     jobs = []
     for alg in sorted(ALGS):
@@ -174,37 +178,59 @@ def run(ctx):
                 s.upd(cid[0], rng.choice([0, 1, 1000, 4096, 65535, 65536, 70001]) if alg != 10 else rng.choice([0, 1, 31, 32, 33, 500]), pick_seed(rng))
             s.lines += ["gets", "free"]
             scens.append(s)
-        if not ctx.quick and alg in (0, 1, 3, 5, 7):
-            # single updates of 2^32 bytes and more
-            for extra in (0, 1, 65):
+        if alg in ((0, 1, 3) if ctx.quick else (0, 1, 3, 5, 7)):
+            # single updates of 2^32 bytes and more (the byte counters of the 64-byte-block algorithms are two 32-bit words); after such a
+            # message the object is reset and used again - "since the last reset" must hold whatever was hashed before
+            for extra in ((1,) if ctx.quick else (0, 1, 65)):
                 s = Scen(alg)
+                s.starts = {0}
                 cid[0] += 1; s.upd(cid[0], 3, 9)
                 cid[0] += 1; s.updbig(cid[0], 32, extra, 77)
-                s.lines += ["gets", "free"]
+                s.lines += ["gets", "reset"]
+                s.starts.add(len(s.parts))
+                cid[0] += 1; s.upd(cid[0], 3, 5)
+                s.lines += ["gets", "getd", "reset", "gets", "free"]
+                s.starts.add(len(s.parts))
                 scens.append(s)
         jobs.append((alg, scens))
     files = []
+    # one job per (algorithm, part); scenarios with 4 GiB updates form parts of their own and run on the plain build (run in parallel:
+    # the oracle's hashlib calls release the interpreter lock)
+    parts = []
     for alg, scens in jobs:
-        # split into files of bounded size
-        for part, i0 in enumerate(range(0, len(scens), 400)):
-            sub = scens[i0:i0 + 400]
-            sp, tp, tb = ctx.path("h%d_%d.script" % (alg, part)), ctx.path("h%d_%d.ndjson" % (alg, part)), ctx.path("h%d_%d.table" % (alg, part))
-            open(sp, "w").write("\n".join("\n".join(s.lines) for s in sub) + "\n")
-            seen = set()
-            with open(tb, "w") as fh:
-                for s in sub:
-                    for rec in s.table():
-                        k = (rec["alg"], tuple(rec["ch"]))
-                        if k not in seen:
-                            seen.add(k)
-                            fh.write(json.dumps(rec) + "\n")
-            rc, out, to = run_driver([exe, sp, tp], timeout=1800)
-            if rc != 0 or to:
-                kind = "hang" if to else ("memory-error" if "Sanitizer" in out or "runtime error" in out else "crash")
-                ctx.violation("%s:%s" % (ALGS[alg][0], kind), "drv_hash %s: %s" % (kind, out[-500:]), [sp])
-                continue
-            ctx.events += sum(1 for _ in open(tp))
-            files.append((alg, sp, tp, tb, len(sub)))
+        small = [s for s in scens if not any(p[1][2] for p in s.parts)]
+        bigs = [s for s in scens if any(p[1][2] for p in s.parts)]
+        for part, i0 in enumerate(range(0, len(small), 400)):
+            parts.append((alg, "%d" % part, small[i0:i0 + 400], exe))
+        for bi, sc in enumerate(bigs):
+            parts.append((alg, "big%d" % bi, [sc], exe_plain))
+
+    def run_part(pt):
+        alg, tag, sub, ex_ = pt
+        sp, tp, tb = ctx.path("h%d_%s.script" % (alg, tag)), ctx.path("h%d_%s.ndjson" % (alg, tag)), ctx.path("h%d_%s.table" % (alg, tag))
+        open(sp, "w").write("\n".join("\n".join(s.lines) for s in sub) + "\n")
+        seen = set()
+        with open(tb, "w") as fh:
+            for s in sub:
+                for rec in s.table():
+                    k = (rec["alg"], tuple(rec["ch"]))
+                    if k not in seen:
+                        seen.add(k)
+                        fh.write(json.dumps(rec) + "\n")
+        rc, out, to = run_driver([ex_, sp, tp], timeout=1800)
+        if rc != 0 or to:
+            kind = "hang" if to else ("memory-error" if "Sanitizer" in out or "runtime error" in out else "crash")
+            return ("violation", "%s:%s" % (ALGS[alg][0], kind), "drv_hash %s: %s" % (kind, out[-500:]), [sp])
+        return ("file", (alg, sp, tp, tb, len(sub)), sum(1 for _ in open(tp)))
+    from concurrent.futures import ThreadPoolExecutor as _TPE
+    with _TPE(8) as ex:
+        outcomes = list(ex.map(run_part, parts))
+    for o in outcomes:
+        if o[0] == "violation":
+            ctx.violation(o[1], o[2], o[3])
+        else:
+            files.append(o[1])
+            ctx.events += o[2]
     from concurrent.futures import ThreadPoolExecutor
     def val(f):
         return ctx.validate("data/HashTrace.tla", "HashTrace.cfg", f[2], env={"TABLE": f[3]}, timeout=1800)
